@@ -11,7 +11,7 @@ RULE = ("Hypothesis-generated clique covers: V <= 12 (quick) / 25 vertices numbe
         "1..15 cliques with sizes from a generated size set within {1..10} (adjacent sizes, gaps of one or several, a "
         "single size), overlaps allowed; plus covers returned by EECC.get_EECC on generated graphs. Oracle: per-vertex "
         "counts per occurring size, relative-frequency table, clique-size profile identity, and sampling + generation "
-        "with clique motifs of the reported sizes. Non-trivial = >= 2 distinct clique sizes; distinct = canonical JSON")
+        "with clique motifs of the reported sizes. Sampling is done for as many vertices as the cover has and for 1, 2 and 3 vertices. Non-trivial = >= 2 distinct clique sizes; distinct = canonical JSON")
 ASSUMPTIONS = ["vertex ids are contiguous from 0 or from 1 and every vertex lies in some cover clique (the documented input)"]
 BUDGET = {"quick": (16, 300), "thorough": (16, 15000)}
 
@@ -160,6 +160,12 @@ def check(case):
         classes.add("cover_replaced_through_setter")
     else:
         ld = call("construct", JointDegreeCover, {JN.COVER: cover})
+    # a second loader, for an unrelated cover with other clique sizes, is built in the same process and kept alive:
+    # what the first one reports and samples is its own business
+    other = call("construct-second-loader", JointDegreeCover,
+                 {JN.COVER: [[base + i for i in range(7)], [base + i for i in range(6, 9)]]})
+    if sorted(other.motif_sizes) != [3, 7]:
+        raise Violation("motif-sizes", f"second loader reports motif_sizes {other.motif_sizes} for a 7-clique and a triangle")
     if cover != given:
         raise Violation("cover-mutated", "the cover passed in was modified")
     if list(ld.motif_sizes) != sizes:
